@@ -248,3 +248,79 @@ Print Assumptions c11_packet_ok_payload_rule.
 Print Assumptions c11_packet_ok_conn_id.
 Print Assumptions c11_emitted_ok_nonvacuous.
 Print Assumptions c11_packet_ok_discriminates.
+
+(* ================================================================================================
+   The same clause at the socket-dispatcher tier (Sock/Dispatcher.v): the datagrams the dispatcher itself
+   emits — the ST_SYN of a connect() and the ST_RESET answering a SYN that can be neither served nor queued.
+   Sock/DispC11_Pred.v: syn_header / rst_header (the UtpHeader literals of socket.rs), c11_devent_ok,
+   c11_dstep_ok; Sock/DispC11_Proofs.v: invariant DI (next_connection_id, the pending random_u16 values, the
+   cached SYNs are u16).  Hypotheses: what the environment feeds is u16 (random_u16 values; connection id /
+   seq_nr / ack_nr of parsed datagrams, cf. c11_parsed_in_range). *)
+From Utp Require Import Sock.Dispatcher Sock.DispC11_Pred Sock.DispC11_Proofs.
+
+Theorem c11_disp_inv_initial : forall (max_streams : Z) (random : list Z),
+  randoms_okb random = true -> DI (dstate_new max_streams random).
+Proof. exact new_DI. Qed.
+
+Theorem c11_disp_emitted_ok_every_step : forall (s : dstate) (o : dop) (s' : dstate) (e : list devent),
+  dstep s o = (s', e) -> DI s -> dop_okb o = true -> DI s' /\ c11_dstep_ok e = true.
+Proof. exact dstep_DI. Qed.
+
+(* every op list = every interleaving of connects, accepts, drops and datagrams *)
+Theorem c11_disp_emitted_ok_every_trace : forall (max_streams : Z) (random : list Z) (ops : list dop),
+  randoms_okb random = true -> forallb dop_okb ops = true ->
+  forallb (fun p => c11_dstep_ok (fst p)) (dtrace (dstate_new max_streams random) ops) = true.
+Proof. exact dispatcher_emitted_ok. Qed.
+
+(* an accepted event is 20 bytes with version 1 and type nibble ST_SYN = 4 / ST_RESET = 3 that the peer's
+   parser reads back unchanged, whatever the (u32) timestamp *)
+Theorem c11_disp_syn_on_the_wire : forall (a conn seq ts buflen : Z),
+  c11_devent_ok (EvSentSyn a conn seq) = true -> 0 <= ts < 4294967296 -> 20 <= buflen ->
+  exists bs, serialize (syn_header conn seq ts) buflen = Some bs /\ Zlength bs = 20 /\
+             nth 0 bs 0 mod 16 = 1 /\ nth 0 bs 0 / 16 = 4 /\
+             deserialize bs = Some (syn_header conn seq ts, 20).
+Proof. exact syn_event_on_the_wire. Qed.
+
+Theorem c11_disp_rst_on_the_wire : forall (a conn ack buflen : Z),
+  c11_devent_ok (EvSentRst a conn ack) = true -> 20 <= buflen ->
+  exists bs, serialize (rst_header conn ack) buflen = Some bs /\ Zlength bs = 20 /\
+             nth 0 bs 0 mod 16 = 1 /\ nth 0 bs 0 / 16 = 3 /\
+             deserialize bs = Some (rst_header conn ack, 20).
+Proof. exact rst_event_on_the_wire. Qed.
+
+(* the id owed to the direction, ST_RESET: it answers the SYN datagram handled in this very step, goes to
+   its address, carries its connection id (the id the refused initiator receives on) and acknowledges its
+   sequence number — every state, every step, no hypothesis *)
+Theorem c11_disp_rst_answers_the_syn : forall (s : dstate) (o : dop) (s' : dstate) (e : list devent) (a c k : Z),
+  dstep s o = (s', e) -> In (EvSentRst a c k) e ->
+  exists pushes m, o = DoRunOnce pushes (ArmRecv a (Some m)) /\ dm_type m = ST_SYN /\
+                   c = dm_conn m /\ k = dm_seq m.
+Proof. exact rst_event_facts. Qed.
+
+(* the id owed to the direction, ST_SYN: the id a SYN announces is the one the new connection should
+   RECEIVE on (BEP 29).  FALSE of the model as a statement about what happens next: a SYN-ACK is matched to
+   the pending connect by (address, ack_nr) only, the announced id is not kept, and a ST_STATE carrying
+   another connection id completes the connect under that other id.  (With a peer that echoes the id the
+   key is the announced id: c12 connected_event_facts / wiring_cross_keys.) *)
+Theorem c11_disp_syn_ack_conn_id_unchecked_refuted :
+  exists max_streams random ops a c q t k,
+    randoms_okb random = true /\ forallb dop_okb ops = true /\
+    all_events (dtrace (dstate_new max_streams random) ops) = [EvSentSyn a c q; EvConnected t k] /\
+    k_addr k = a /\ k_conn k <> c.
+Proof. exact syn_ack_conn_id_unchecked_refuted. Qed.
+
+(* non-vacuity: reachable SYN and RESET emissions under the hypotheses *)
+Theorem c11_disp_nonvacuous :
+  randoms_okb [100; 200] = true /\ forallb dop_okb (syn_id_ops ++ rst_ops) = true /\
+  all_events (dtrace (dstate_new 10 [100; 200]) rst_ops) = [EvSentRst 9 1032 532] /\
+  forallb (fun p => c11_dstep_ok (fst p)) (dtrace (dstate_new 10 [100; 200]) (syn_id_ops ++ rst_ops)) = true.
+Proof. exact rst_nonvacuous. Qed.
+
+Print Assumptions c11_disp_inv_initial.
+Print Assumptions c11_disp_emitted_ok_every_step.
+Print Assumptions c11_disp_emitted_ok_every_trace.
+Print Assumptions c11_disp_syn_on_the_wire.
+Print Assumptions c11_disp_rst_on_the_wire.
+Print Assumptions c11_disp_rst_answers_the_syn.
+Print Assumptions c11_disp_syn_ack_conn_id_unchecked_refuted.
+Print Assumptions c11_disp_nonvacuous.
